@@ -167,7 +167,7 @@ Theorem C03_stddev_partial : forall m cells, m <> MStar ->
 Proof. exact batch_stddev_sample. Qed.
 Print Assumptions C03_stddev_partial.
 
-(* FINDING F59 (as found, not repaired): an aggregate call with an arithmetic argument written inside an analytic
+(* FINDING F60 (as found, not repaired): an aggregate call with an arithmetic argument written inside an analytic
    function of a windowed query - changed_col(true, sum(x + 1)), lag(max(d.x * 2)) - runs over the bare column *)
 Theorem C03_inline_agg_arg_dropped_refuted :
   exists cells,
